@@ -11,6 +11,7 @@ CONSTANTS
   TickSteps = {1, 2, 3}
   MaxTracked = 100
   SweepCap = 0
+  IndexMode = "exact"
   Depth = 16
 INVARIANT Emit
 CHECK_DEADLOCK FALSE
